@@ -74,7 +74,7 @@ func (c *Ctx) runFrameGrammar(rule string) (frames map[string]int, roots, frags 
 		ts := core.NewTS(c.P, fc)
 		ts.Relevant = reach
 		fc.root = fn
-		ts.Run(fn, fstate{}.String(), nil)
+		ts.Run(fn, fstate{}.String(), core.TSEnv{})
 		mine := c.R.Obls
 		c.R.Obls = saved
 		states += ts.States
